@@ -1,24 +1,29 @@
 (* Lsflow — executable model of layers/sflow.go (sFlow v5 datagram decoder).  Definitions only.
-   Line numbers (sflow.go after the `fix:` commit that resets the sample slices):
-     SFlowDatagram.DecodeFromBytes :302-369 (header :305-320, sample loop :325-361),
-     skipRecord :472-483, decodeFlowSample :485-713, decodeCounterSample :815-910,
-     SFlowDataSource.decode :95-99, SFlowDataSourceExpanded.decode :106-110, SFlow*DataFormat.decode,
-     decodeRawPacketFlowRecord :1103-1125, decodeExtendedSwitchFlowRecord, decodeExtendedRouterFlowRecord,
-     SFlowASDestination.decodePath, decodeExtendedGatewayFlowRecord, decodeExtendedURLRecord,
-     decodeExtendedUserFlow, decodeSFlowIpv4Record, decodeSFlowIpv6Record, the four tunnel decoders,
-     decapsulate / VNI decoders, decodeGenericInterfaceCounters, decodeEthernetCounters,
-     decodeVLANCounters, decodeLACPCounters, decodeProcessorCounters, decodeEthernetFrameFlowRecord,
-     decodeOpenflowportCounters, decodeAppresourcesCounters, decodeOVSDPCounters, decodeString,
-     decodePortnameCounters (to the end of the file).
-   The decoder works on a cursor: `*data, x = ( *data)[n:], f(( *data)[:n])`; a parser here is a function
+   Line numbers (sflow.go after the `fix:` commit "SFlowDatagram.DecodeFromBytes starts from empty sample lists"):
+     SFlowDatagram.DecodeFromBytes :302-368 (reset :305-308, header :310-325, sample loop :330-366),
+     skipRecord :471-482, decodeFlowSample :484-712 (record loop :560-710), decodeCounterSample :814-909 (record loop :837-907),
+     SFlowDataSource.decode :95-99, SFlowDataSourceExpanded.decode :106-110, SFlowDataFormat.decode :192-196,
+     SFlowFlowDataFormat.decode :455-459, SFlowCounterDataFormat.decode :747-751, SFlowIPType.Length :291-300,
+     decodeRawPacketFlowRecord :1102, decodeExtendedSwitchFlowRecord :1155, decodeExtendedRouterFlowRecord :1200,
+     SFlowASDestination.decodePath :1326, decodeExtendedGatewayFlowRecord :1348, decodeExtendedURLRecord :1443,
+     decodeExtendedUserFlow :1768, decodeSFlowIpv4Record :1846, decodeSFlowIpv6Record :1907, the four tunnel decoders
+     :1945-2083, decapsulate / VNI decoders :2088-2221, decodeGenericInterfaceCounters :2335, decodeEthernetCounters :2398,
+     decodeVLANCounters :2475, decodeLACPCounters :2517, decodeProcessorCounters :2576, decodeEthernetFrameFlowRecord :2627,
+     decodeOpenflowportCounters :2652, decodeAppresourcesCounters :2681, decodeOVSDPCounters :2714, decodeString :2741,
+     decodePortnameCounters :2758 (first lines of the functions).
+   The decoder works on a cursor: ` *data, x = ( *data)[n:], f(( *data)[:n])`; a parser here is a function
    from the remaining bytes to an outcome of (value, remaining bytes); every such statement is a
-   checked read (Panic when fewer than n bytes remain).
+   checked read (Panic when fewer than n bytes remain).  Go int is 64 bits; uint32 arithmetic wraps explicitly.
    Decoded samples and records are generic trees (`sv`): unsigned numbers, byte strings, lists; the
    harness prints the real structures in the same shape.  The packet embedded in a raw packet flow
    record (gopacket.NewPacket(header, LayerTypeEthernet, gopacket.Default): total, recovers panics)
    is opaque: the model keeps the header bytes handed to it.
    BaseLayer (Contents/Payload) is never written by this decoder (the repository's tests pin that),
-   so it is not part of the modelled state. *)
+   so it is not part of the modelled state.
+   Behaviour modelled as it is, although surprising (none of it is a C19/C05/C01 matter): SFlowDataSource is an int32, so
+   source-id classes 2 and 3 of compact samples decode to 0xfffffffe / 0xffffffff; skipRecord rounds lengths above 4
+   DOWN to a multiple of 4 (Go % on a negative int); SFlowPORTNAME.Len is the padded length; FreeMemory = high + low
+   (no shift); IPv4/IPv6 flow records (types 3, 4) read the tag and length words as Length and Protocol. *)
 From GP Require Import Base Codec.
 Open Scope Z_scope.
 
@@ -81,7 +86,7 @@ Definition p_fixed (min : nat) (sh : list fspec) : P (list sv) :=
 (* uint32 arithmetic: n + ((4 - n) % 4) *)
 Definition pad32 (n : Z) : Z := (n + ((4 - n) mod 4294967296) mod 4) mod 4294967296.
 
-(* skipRecord :472-483 (Go int arithmetic, % truncates toward zero) *)
+(* skipRecord :471-482 (Go int arithmetic, % truncates toward zero) *)
 Definition p_skip : P unit := fun d =>
   if sf_short 8 d then Err 20 else
   match p_u32 (skipn 4 d) with
@@ -210,7 +215,7 @@ Definition flow_fixed (ty : Z) : option (nat * list fspec) :=
 Definition p_skip_err {A} (e : Z) : P A := fun d =>
   match p_skip d with Panic s => Panic s | _ => Err e end.
 
-(* the switch of decodeFlowSample :572-705 (enterprise 0) *)
+(* the switch of decodeFlowSample :570-704 (enterprise 0) *)
 Definition p_flow_record (ty : Z) : P (list sv) :=
   match flow_fixed ty with
   | Some (m, sh) => p_fixed m sh
@@ -226,7 +231,7 @@ Definition p_flow_record (ty : Z) : P (list sv) :=
     perr 43
   end.
 
-(* record loop of decodeFlowSample :561-711 *)
+(* record loop of decodeFlowSample :560-710 *)
 Fixpoint p_frecs (fuel : nat) (cnt : Z) : P (list sv) := fun d =>
   if cnt <=? 0 then Ok ([], d) else
   match fuel with
@@ -260,9 +265,9 @@ Fixpoint p_frecs (fuel : nat) (cnt : Z) : P (list sv) := fun d =>
 Definition src_compact (v : Z) : Z * Z :=
   ((if v <? 2147483648 then v / 1073741824 else 4294967296 + (v - 4294967296) / 1073741824), v mod 1073741824).
 
-(* decodeFlowSample :485-713 *)
+(* decodeFlowSample :484-712 *)
 Definition p_flow_sample (expanded : bool) : P sv :=
-  pbind p_u32 (fun sdf =>                                                        (* :488, the caller checked len >= 4 *)
+  pbind p_u32 (fun sdf =>                                                        (* :487, the caller checked len >= 4 *)
   pbind (p_w 45) (fun slen => pbind (p_w 45) (fun seq =>
   pbind (if expanded then pbind (p_w 45) (fun c => pbind (p_w 45) (fun i => pret (c, i)))
          else pbind (p_w 45) (fun v => pret (src_compact v))) (fun ci =>
@@ -310,7 +315,7 @@ Definition counter_fixed (ty : Z) : option (nat * list fspec) :=
   if ty =? 2207 then Some (32%nat, [FFmt; FW32; FW32; FW32; FW32; FW32; FW32; FW32]) else   (* OVS datapath *)
   None.
 
-(* the switch of decodeCounterSample :844-907 (the enterprise part of the tag is ignored) *)
+(* the switch of decodeCounterSample :843-906 (the enterprise part of the tag is ignored) *)
 Definition p_counter_record (ty : Z) : P (list sv) :=
   match counter_fixed ty with
   | Some (m, sh) => p_fixed m sh
@@ -343,7 +348,7 @@ Fixpoint p_crecs (fuel : nat) (cnt : Z) : P (list sv) := fun d =>
     end
   end.
 
-(* decodeCounterSample :815-910 *)
+(* decodeCounterSample :814-909 *)
 Definition p_counter_sample (expanded : bool) : P sv :=
   pbind (p_short (if expanded then 24 else 20) 56) (fun _ =>
   pbind p_u32 (fun sdf => pbind p_u32 (fun slen => pbind p_u32 (fun seq =>
@@ -362,13 +367,13 @@ Record sflow := mkSf {
   sf_fs : list sv; sf_cs : list sv }.
 Definition sf_fresh : sflow := mkSf 0 [] 0 0 0 0 [] [].
 
-(* the sample loop :325-361: samples appended so far stay in the layer when a later one fails *)
+(* the sample loop :330-366: samples appended so far stay in the layer when a later one fails *)
 Fixpoint sf_samples (fuel : nat) (cnt : Z) (fs cs : list sv) (d : list Z) : (list sv * list sv) * outcome unit * bool :=
   if cnt <=? 0 then ((fs, cs), Ok tt, false) else
   match fuel with
   | O => ((fs, cs), Err 99, false)
   | S f =>
-    if sf_short 4 d then ((fs, cs), Err 4, true) else                              (* :326-329 SetTruncated *)
+    if sf_short 4 d then ((fs, cs), Err 4, true) else                              (* :331-334 SetTruncated *)
     match p_u32 d with
     | Ok (tag, _) =>
       let ty := tag mod 4096 in
@@ -384,23 +389,23 @@ Fixpoint sf_samples (fuel : nat) (cnt : Z) (fs cs : list sv) (d : list Z) : (lis
         | Err e => ((fs, cs), Err e, false)
         | Panic s => ((fs, cs), Panic s, false)
         end
-      else ((fs, cs), Err 5, false)                                                (* :358-359 *)
+      else ((fs, cs), Err 5, false)                                                (* :363-364 *)
     | Err e => ((fs, cs), Err e, false)
     | Panic s => ((fs, cs), Panic s, false)
     end
   end.
 
-(* DecodeFromBytes :302-369.  reset = true: the code as repaired (FlowSamples/CounterSamples set to nil first);
+(* DecodeFromBytes :302-368.  reset = true: the code as repaired (FlowSamples/CounterSamples set to nil first);
    reset = false: the original, which appends to whatever the layer held. *)
 Definition sf_decode_gen (reset : bool) (old : sflow) (data : list Z) : sflow * outcome unit * bool :=
   let s0 := if reset then mkSf (sf_ver old) (sf_agent old) (sf_sub old) (sf_seq old) (sf_up old) (sf_cnt old) [] [] else old in
-  if sf_short 8 data then (s0, Err 1, true) else                                   (* :305-308 *)
+  if sf_short 8 data then (s0, Err 1, true) else                                   (* :310-313 *)
   match p_u32 data with
   | Ok (ver, d1) =>
     let s1 := mkSf ver (sf_agent s0) (sf_sub s0) (sf_seq s0) (sf_up s0) (sf_cnt s0) (sf_fs s0) (sf_cs s0) in
     match p_u32 d1 with
     | Ok (at_, d2) =>
-      if sf_short (ip_len at_ + 16) d2 then (s1, Err 2, true) else                 (* :312-315 *)
+      if sf_short (ip_len at_ + 16) d2 then (s1, Err 2, true) else                 (* :317-320 *)
       match p_bytes (ip_len at_) d2 with
       | Ok (agent, d3) =>
         let s2 := mkSf ver agent (sf_sub s0) (sf_seq s0) (sf_up s0) (sf_cnt s0) (sf_fs s0) (sf_cs s0) in
@@ -416,7 +421,7 @@ Definition sf_decode_gen (reset : bool) (old : sflow) (data : list Z) : sflow * 
               match p_u32 d6 with
               | Ok (cnt, d7) =>
                 let s6 := mkSf ver agent sub seq up cnt (sf_fs s0) (sf_cs s0) in
-                if cnt <? 1 then (s6, Err 3, false) else                           (* :322-324 *)
+                if cnt <? 1 then (s6, Err 3, false) else                           (* :327-329 *)
                 let '((fs, cs), o, tr) := sf_samples (S (length d7)) cnt (sf_fs s0) (sf_cs s0) d7 in
                 (mkSf ver agent sub seq up cnt fs cs, o, tr)
               | Err e => (s5, Err e, false) | Panic s => (s5, Panic s, false)
